@@ -108,11 +108,30 @@ Definition po := list param.            (* std::vector<std::shared_ptr<Param>> *
 
 Inductive po_op :=
 | PHas (n : N)                    (* hasParam(n)                      *)
-| PSet (n tag v : N)              (* setParam<T_tag>(n, v)            *)
+| PSet (n form v : N)             (* setParam(n, <argument of form `form` carrying v>), see store_of *)
 | PGet (n tag dflt : N)           (* getParam<T_tag>(n, dflt)         *)
 | PRemove (n : N)                 (* removeParam(n)                   *)
 | PReset                          (* resetAllParamQueryStatus()       *)
 | PFindAdd (n : N).               (* findParam(n, true) (protected)   *)
+
+(* What `data = v` (Param::set) leaves in the Any, as a function of the FORM of setParam's argument -
+   a fixed table of C++/Any semantics, not measured: Any's by-value template assignment stores the DECAYED
+   type, its copy assignment stores the payload of the Any it is given (nothing for an empty one), and
+   nothing is promoted.  Stored-type tags (the T of getParam<T>): 0 int, 1 float, 2 std::string, 3 vec3f,
+   4 const char*, 5 short, 6 an enum. *)
+Definition store_of (form v : N) : option (N * N) :=
+  match form with
+  | 4 => Some (4, v)        (* string literal, static type const char[N] (several N)  -> const char*  *)
+  | 5 => Some (4, v)        (* char array variable, static type char[N]               -> const char*  *)
+  | 6 => Some (4, v)        (* const char* variable                                   -> const char*  *)
+  | 7 => Some (0, v)        (* utility::Any holding an int                            -> int          *)
+  | 8 => Some (1, v)        (* utility::Any holding a float                           -> float        *)
+  | 9 => Some (2, v)        (* utility::Any holding a std::string                     -> std::string  *)
+  | 10 => None              (* empty utility::Any                                     -> data emptied *)
+  | 11 => Some (5, v)       (* short: stays short (no promotion to int)                               *)
+  | 12 => Some (6, v)       (* enum: stays that enum                                                  *)
+  | _ => Some (form, v)     (* 0 int, 1 float, 2 std::string, 3 vec3f: stored as themselves           *)
+  end.
 
 Fixpoint po_find (s : po) (n : N) : option param :=
   match s with
@@ -143,9 +162,9 @@ Definition po_ensure (s : po) (n : N) : po :=
 Definition po_step (s : po) (o : po_op) : po * fm_out :=
   match o with
   | PHas n => (s, OBool (match po_find s n with Some _ => true | None => false end))
-  | PSet n tag v =>
+  | PSet n form v =>
       (po_modify (po_ensure s n) n
-                 (fun p => {| p_name := p_name p; p_data := Some (tag, v); p_query := p_query p |}),
+                 (fun p => {| p_name := p_name p; p_data := store_of form v; p_query := p_query p |}),
        OUnit)
   | PGet n tag dflt =>
       match po_find s n with
